@@ -65,6 +65,31 @@ def run(ctx, out):
             for f in rng.sample(NODES, 2):
                 g.add((s, SH.targetNode, f))
         cases.append(("shared-pattern", g, graph_from_triples(data + [(NODES[0], PREDS[0], Literal("Abc")), (NODES[1], PREDS[1], Literal("abX"))])))
+    # sh:sparql constraints on property shapes whose query uses $PATH (simple and complex paths), with and without sh:prefixes:
+    # the path is printed into the query text, so the outcome must not depend on which prefixes either graph happens to bind
+    for _ in range(24 if quick else 300):
+        data = shapegen.gen_data(rng, literal_bias=0.4)
+        g = Graph()
+        s, ps, c = EX.SP, BNode(), BNode()
+        p0, p1 = rng.sample(PREDS, 2)
+        g.add((s, RDF.type, SH.NodeShape)); g.add((s, SH.targetSubjectsOf, p0)); g.add((s, SH.property, ps))
+        kind = rng.choice(["pred", "inv", "seq", "star"])
+        if kind == "pred":
+            g.add((ps, SH.path, p0))
+        elif kind == "inv":
+            b = BNode(); g.add((ps, SH.path, b)); g.add((b, SH.inversePath, p0))
+        elif kind == "star":
+            b = BNode(); g.add((ps, SH.path, b)); g.add((b, SH.zeroOrMorePath, p0))
+        else:
+            l1, l2 = BNode(), BNode()
+            g.add((ps, SH.path, l1)); g.add((l1, RDF.first, p0)); g.add((l1, RDF.rest, l2)); g.add((l2, RDF.first, p1)); g.add((l2, RDF.rest, RDF.nil))
+        g.add((ps, SH.sparql, c))
+        g.add((c, SH.select, Literal("SELECT $this ?value WHERE { $this $PATH ?value . FILTER(isIRI(?value)) }")))
+        if rng.random() < 0.4:
+            o, d = EX.onto, BNode()
+            g.add((c, SH.prefixes, o)); g.add((o, SH.declare, d))
+            g.add((d, SH.prefix, Literal(rng.choice(["ex", "zz"])))); g.add((d, SH.namespace, Literal(str(EX), datatype=URIRef("http://www.w3.org/2001/XMLSchema#anyURI"))))
+        cases.append(("sparql-path", g, graph_from_triples(data)))
     # ill-formed on purpose: two sh:severity values would make the pick order-dependent -> excluded from the quantifier
     opts_pool = [{}, {"abort_on_first": False, "allow_warnings": True}, {"sparql_mode": True}, {"advanced": True}]
     out.rule = ("Core + composition cases x %d worker processes with distinct PYTHONHASHSEED, each with its own triple insertion order, "
@@ -118,7 +143,7 @@ def run(ctx, out):
         out.traces += 1
         code = vcase.run_code(sg, dg, kws[i])
         model = vcase.parse_model(replies["c%d" % i])
-        if not kws[i].get("sparql_mode"):
+        if not kws[i].get("sparql_mode") and label != "sparql-path":   # (A) for sh:sparql needs engine tables: that is C05's check
             d = vcase.compare(code, model, sg, with_detail=True)
             if d:
                 out.a_mismatch.append({"case": case, "diff": d[:900], "op": "validate"})
